@@ -2,6 +2,7 @@
 
 #include "log_tls.h"
 #include "util.h"
+#include "verif.h"
 
 #include <openssl/err.h>
 #include <openssl/sha.h>
@@ -118,6 +119,8 @@ static struct cache_entry *cache_install(struct cache *cache,
 {
     struct cache_entry *entry = cache_entry_create(hash, ssl_ctx);
     LIST_INSERT_HEAD(&cache->entries, entry, elem);
+    XCM_VERIF_EV("ctx_new", XCM_VERIF_H32(entry->hash), entry->use_cnt,
+		 entry->ssl_ctx);
     return entry;
 }
 
@@ -132,6 +135,8 @@ static struct cache_entry *cache_get(struct cache *cache, const uint8_t *hash)
     LIST_FOREACH(entry, &cache->entries, elem) {
 	if (hash_equal(entry->hash, hash)) {
 	    entry->use_cnt++;
+	    XCM_VERIF_EV("ctx_hit", XCM_VERIF_H32(entry->hash), entry->use_cnt,
+			 entry->ssl_ctx);
 	    return entry;
 	}
     }
@@ -161,9 +166,11 @@ static void cache_put(struct cache *cache, SSL_CTX *ssl_ctx)
     ut_assert(entry != NULL);
 
     entry->use_cnt--;
+    XCM_VERIF_EV("ctx_put", XCM_VERIF_H32(entry->hash), entry->use_cnt, ssl_ctx);
     if (entry->use_cnt == 0) {
 	LIST_REMOVE(entry, elem);
 	cache_entry_destroy(entry);
+	XCM_VERIF_EV("ctx_free", 0, 0, ssl_ctx);
     }
 }
 
@@ -496,6 +503,7 @@ SSL_CTX *ctx_store_get_ctx(const struct item *cert, const struct item *key,
 			   void *log_ref)
 {
     cache_lock(&cache);
+    XCM_VERIF_YIELD("ctx");
 
     struct cache_entry *entry = NULL;
 
@@ -586,6 +594,7 @@ void ctx_store_put(SSL_CTX *ssl_ctx)
 {
 
     cache_lock(&cache);
+    XCM_VERIF_YIELD("ctx");
 
     cache_put(&cache, ssl_ctx);
 
